@@ -35,7 +35,9 @@ IsSettings0(f) == f.k = "settings" /\ f.stream = 0
 IsWu0(f) == f.k = "wu" /\ f.stream = 0
 IsReqHeaders(f) == f.k = "headers" /\ f.stream > 0
 
-Letter(n) == CASE n = ":method" -> "m" [] n = ":path" -> "p" [] n = ":authority" -> "a" [] n = ":scheme" -> "s" [] n = ":status" -> "st"
+\* a pseudo-header the scheme has no letter for (":protocol" of RFC 8441 ...) keeps its place in the order, written "?" + its wire name
+\* (the code's documented rendering of PseudoHeader::Unknown)
+Letter(n) == CASE n = ":method" -> "m" [] n = ":path" -> "p" [] n = ":authority" -> "a" [] n = ":scheme" -> "s" [] n = ":status" -> "st" [] OTHER -> "?" \o n
 
 \* the fingerprint of a frame sequence; <<>> when it holds no SETTINGS frame on stream 0 (with parameters)
 Fp(fs) ==
